@@ -162,6 +162,8 @@ impl PageLockShard {
 
     fn try_cleanup(&self, page_id: PageId, entry: &PageLockEntry) {
         if entry.release() {
+            #[cfg(kahflane_turdb_verif)]
+            crate::verif_hooks::sched_point(204);
             let mut map = self.locks.lock();
             if entry.ref_count.load(Ordering::Acquire) == 0 {
                 map.remove(&page_id);
@@ -202,6 +204,8 @@ impl Drop for PageReadGuard<'_> {
         // sole owner of this read lock and must manually release it here.
         // The entry Arc keeps the lock data alive until after this unlock.
         unsafe { self.entry.lock.force_unlock_read() };
+        #[cfg(kahflane_turdb_verif)]
+        crate::verif_hooks::sched_point(203);
         self.shard.try_cleanup(self.page_id, &self.entry);
     }
 }
@@ -219,6 +223,8 @@ impl Drop for PageWriteGuard<'_> {
         // sole owner of this write lock and must manually release it here.
         // The entry Arc keeps the lock data alive until after this unlock.
         unsafe { self.entry.lock.force_unlock_write() };
+        #[cfg(kahflane_turdb_verif)]
+        crate::verif_hooks::sched_point(203);
         self.shard.try_cleanup(self.page_id, &self.entry);
     }
 }
@@ -354,11 +360,15 @@ impl PageLockManager {
         let page_id = PageId::new(table_id, page_no);
         let shard = &self.page_shards[page_id.shard_index()];
         let entry = shard.get_or_create(page_id);
+        #[cfg(kahflane_turdb_verif)]
+        crate::verif_hooks::sched_point(201);
 
         let contended = entry.lock.try_read().is_none();
 
         let guard = entry.lock.read();
         std::mem::forget(guard);
+        #[cfg(kahflane_turdb_verif)]
+        crate::verif_hooks::sched_point(202);
 
         self.stats.record_page_lock(contended);
 
@@ -373,11 +383,15 @@ impl PageLockManager {
         let page_id = PageId::new(table_id, page_no);
         let shard = &self.page_shards[page_id.shard_index()];
         let entry = shard.get_or_create(page_id);
+        #[cfg(kahflane_turdb_verif)]
+        crate::verif_hooks::sched_point(201);
 
         let contended = entry.lock.try_write().is_none();
 
         let guard = entry.lock.write();
         std::mem::forget(guard);
+        #[cfg(kahflane_turdb_verif)]
+        crate::verif_hooks::sched_point(202);
 
         self.stats.record_page_lock(contended);
 
